@@ -184,6 +184,10 @@ def run(chk, tier, seed, replay):
         sup = [c for c in sup if len(c["l"]) < 2 or vlib.seeded_pick(c["_key"], seed, 3) == 0]
         # the companion variants other than the plain unit one: a seeded half
         sup = [c for c in sup if c["comp"] == "unit" or vlib.seeded_pick(c["_key"], seed + 2, 2) == 0]
+    if tier == "thorough" and not replay:
+        # rustc cannot take 150k modules: every <=2-field layout + a seeded sample of the 3-field ones
+        keep = vlib.cap_cases([c["_key"] for c in sup], seed, 24000, keep=lambda k: k.count(":") <= 4)
+        sup = [c for c in sup if c["_key"] in keep]
     stable = [c for c in sup if c["bt"][0] != "field"]
     nightly = [c for c in sup if c["bt"][0] == "field"]
     if tier == "quick" and not replay:
@@ -200,8 +204,8 @@ def run(chk, tier, seed, replay):
         log(f"[C09] building {name}: {len(mods)} layouts")
         return vlib.run_case_crate_sharded(name, mods, nsh, prelude=PRELUDE, toolchain=tc, crate_attrs=attrs,
                                            features=("error", "debug", "std"))
-    groups = [g for g in (("c09_stable", stable, None, "", 4),
-                          ("c09_nightly", nightly, "nightly", "#![feature(error_generic_member_access)]\n", 3)) if g[1]]
+    groups = [g for g in (("c09_stable", stable, None, "", 4 if tier == "quick" else 8),
+                          ("c09_nightly", nightly, "nightly", "#![feature(error_generic_member_access)]\n", 3 if tier == "quick" else 6)) if g[1]]
     with cf.ThreadPoolExecutor(max_workers=2) as ex:
         built = list(ex.map(build_group, groups))
     for (name, group, tc, attrs, _), (obs2, failed, br) in zip(groups, built):
